@@ -118,10 +118,10 @@ def tmp_path(name):
 
 
 def load(sheets, names=None, ignore=(), date1904=False, hidden=(),
-         how='ignore-list'):
+         how='ignore-list', norefs=()):
     path = tmp_path('wb')
     with open(path, 'wb') as fp:
-        fp.write(R.build(sheets, names, date1904, hidden))
+        fp.write(R.build(sheets, names, date1904, hidden, norefs))
     import warnings
     with warnings.catch_warnings():
         warnings.simplefilter('ignore')
@@ -237,6 +237,41 @@ def run_form_isolated(fi, pos, sheet_index, ctx, date1904=False):
              and (c.formula is not None or c.value not in (None, ''))]
     ctx.check(key0 + '/no-extra', 'extra:%d' % len(extra), 'extra:0', tags,
               inputs, False)
+
+
+def run_form_norefs(fi, pos, ctx):
+    """The r attribute of rows and cells is optional: a sheet written without
+    it (rows and cells in sequence from A1) is the same sheet.  The form under
+    test stands at GRID[pos]; the rest of A1:E3 is filled (column E holds the
+    helper cells)."""
+    fname, spec, want = FORMS[fi]
+    cells = {}
+    for r in (1, 2, 3):
+        for ci, c in enumerate('ABCD'):
+            cells['%s%d' % (c, r)] = {'form': 'n', 'v': 100 * r + ci}
+    cells.update(helper_cells())
+    cells[GRID[pos]] = spec
+    key0 = 'C11/norefs/%s/%s' % (fname, GRID[pos])
+    inputs = {'family': 'norefs', 'fi': fi, 'pos': pos}
+    tags = ['form:' + fname, 'xml:no-r-attributes']
+    try:
+        model = load([('Sheet1', cells)], norefs=('Sheet1',))
+    except Exception as exc:  # noqa: BLE001
+        ctx.fail(key0 + '/load', tags, inputs, 'loads', lib.exc_obs(exc))
+        return
+    judge_cell(ctx, key0, model, 'Sheet1', GRID[pos], spec, want, tags,
+               inputs, True)
+    judge_eval(ctx, key0, model, 'Sheet1', GRID[pos], eval_want(spec, want),
+               tags, inputs, True)
+    got = {a: lib.observe(model.get_cell_value, a)
+           for a, c in model.cells.items()
+           if a != 'Sheet1!' + GRID[pos]
+           and (c.formula is not None or c.value not in (None, ''))}
+    wantd = {'Sheet1!' + k: lib.norm(v['v']) for k, v in cells.items()
+             if k != GRID[pos]}
+    ctx.check(key0 + '/other-cells', repr(sorted(got.items())),
+              repr(sorted(wantd.items())), tags + ['oracle:addresses'],
+              inputs, True)
 
 
 def run_form_latin(rot, sheet_index, ctx):
@@ -783,6 +818,8 @@ def plan(tier):
     shards.append({'family': 'names-sparse'})
     for fi in range(len(LONE_FORMS)):
         shards.append({'family': 'lone', 'fi': fi})
+    for fi in range(len(FORMS)):
+        shards.append({'family': 'norefs', 'fi': fi})
     return shards
 
 
@@ -796,6 +833,12 @@ def run_shard(shard, ctx):
         ctx.sample({'family': f, 'form': FORMS[shard['fi']][0],
                     'spec': FORMS[shard['fi']][1],
                     'date1904': shard.get('date1904', False)})
+    elif f == 'norefs':
+        for pos in range(len(GRID)):
+            run_form_norefs(shard['fi'], pos, ctx)
+        ctx.sample({'family': f, 'form': FORMS[shard['fi']][0],
+                    'xml': '<row><c><v>100</v></c><c><f>E1+E2*E3</f>'
+                           '<v>99.5</v></c>...'})
     elif f == 'lone':
         for pos in range(len(GRID)):
             for fpos in range(len(GRID)):
@@ -844,6 +887,8 @@ def replay(inputs, ctx):
         run_loads(inputs['first'], inputs['second'], ctx)
     elif f == 'lone':
         run_lone(inputs['fi'], inputs['pos'], inputs['fpos'], ctx)
+    elif f == 'norefs':
+        run_form_norefs(inputs['fi'], inputs['pos'], ctx)
     elif f == 'names-sparse':
         run_names_sparse(inputs['mask'],
                          frozenset(tuple(h) for h in inputs['holes']), ctx)
